@@ -97,6 +97,10 @@ def run_property(modname: str, tier: str) -> int:
         if hasattr(mod, "prepare"):
             mod.prepare(tier, workdir)
         shard_list = mod.shards(tier)
+        shards_file = os.path.join(workdir, "shards.json")
+        with open(shards_file, "w") as f:
+            json.dump({"module": modname, "tier": tier, "shards": shard_list}, f)
+        os.environ["VF_SHARDS_FILE"] = shards_file
         results: List[Dict[str, Any]] = []
         with cf.ThreadPoolExecutor(max_workers=NPROC) as ex:
             futs = [ex.submit(_run_shard, modname, i, tier, s, workdir) for i, s in enumerate(shard_list)]
